@@ -29,7 +29,8 @@ THEOREMS = [
     "KrroodVerif.PD.C15_spec_total",
     "KrroodVerif.PD.C15_fields_agree",
     "KrroodVerif.PD.C15_fields_closure",
-    "KrroodVerif.PD.C15_cex_assign_clobbers",
+    "KrroodVerif.PD.C15_assign_keeps_inferred",
+    "KrroodVerif.PD.C15_cex_reassign_asserted",
     "KrroodVerif.PD.C15_cex_falsy_not_recorded",
     "KrroodVerif.PD.run_eq_closure",
     "KrroodVerif.PD.schema_UClosed",
@@ -50,7 +51,7 @@ ASSUMPTIONS = [
     "a relation is identified by (descriptor class, source, target): the implementation also tells apart the owner "
     "class recorded in the wrapped field (Place.located_in / City.located_in on a City(Place) instance; one descriptor "
     "class attached to two classes) - the model and the observation work on that quotient; collection assignment "
-    "is not generated in schema H, where such variants become visible in the fields inside the F-C15-1 trigger",
+    "is not generated in schema H, where such variants become visible in the fields inside the F-C15-3 trigger",
     "schema F: classes with their own truthiness (__len__ backed by a mutable attribute, __bool__); instances are "
     "falsy at some points of a history, as owners and as elements. Truthiness is irrelevant to the closure (an "
     "instance is just an object), so the specification ignores it; the code's truthiness test is the quirk of F-C15-2",
@@ -252,7 +253,7 @@ def generate(rng, tier, n):
         trans_fields = [f for f, (c, name) in enumerate(d["fields"])
                         if name in ("sub_organization_of", "near", "anc", "parent", "desc", "head_of", "rbottom", "owns", "rright", "holds", "held_by",
                                     "located_in", "capital_of", "contains", "seat_of", "within", "next", "flags")]
-        # schema H: no collection assignment — in the trigger region of F-C15-1 the wrapped-field variants the model
+        # schema H: no collection assignment — in the trigger region of F-C15-3 the wrapped-field variants the model
         # abstracts from become visible in the fields (a second variant of a known relation is written back)
         ops = _ops(rng, d, objs, rng.randint(1, maxlen), trans_fields, no_assign=(tag == "H"))
         if not ops:
